@@ -1730,4 +1730,150 @@ theorem learnAll_style (c : CommInfo) (ps : List Parsed) (h : c.noMigrate = fals
     congr 1
     unfold migrate; simp [h]
 
+/-! ## amount_t::is_zero -/
+
+theorem decVal_all_zero (s : Text) (h : ∀ c ∈ s, c = '0') : decVal s = 0 := by
+  induction s with
+  | nil => rfl
+  | cons c s ih =>
+    have hc := h c (by simp)
+    have hr : ∀ x ∈ s, x = '0' := fun x hx => h x (by simp [hx])
+    have e : c :: s = [c] ++ s := rfl
+    rw [e, decVal_append, decVal_singleton, ih hr, hc]
+    simp [digitVal]
+
+theorem fracVal_all_zero (s : Text) (h : ∀ c ∈ s, c = '0') : fracVal s = 0 := by
+  unfold fracVal
+  rw [decVal_all_zero s h]
+  simp [Rat.div_def, Rat.zero_mul]
+
+theorem zero_of_digit_test {c : Char} (hd : isDigit c = true)
+    (ht : (c = '0' || c = '.' || c = '-') = true) : c = '0' := by
+  have hs := isDigit_not_sep hd
+  obtain ⟨_, h2⟩ := isSep_false_iff.mp hs
+  have h3 : c ≠ '-' := by intro e; subst e; revert hd; decide
+  simp only [Bool.or_eq_true, decide_eq_true_eq] at ht
+  rcases ht with (h | h) | h
+  · exact h
+  · exact absurd h h2
+  · exact absurd h h3
+
+/-- the print-and-scan test of is_zero passes only when the printed value is zero. -/
+theorem plain_test_sound (n : Num) (hi : ∀ c ∈ n.int, isDigit c = true) (hf : ∀ c ∈ n.frac, isDigit c = true)
+    (h : n.plain.all (fun c => c = '0' || c = '.' || c = '-') = true) : n.val = 0 := by
+  have hall := List.all_eq_true.mp h
+  have hint : ∀ c ∈ n.int, c = '0' := by
+    intro c hc
+    apply zero_of_digit_test (hi c hc)
+    apply hall c
+    unfold Num.plain
+    simp [hc]
+  have hfr : ∀ c ∈ n.frac, c = '0' := by
+    intro c hc
+    apply zero_of_digit_test (hf c hc)
+    apply hall c
+    unfold Num.plain
+    have hne : n.frac ≠ [] := by intro e; rw [e] at hc; simp at hc
+    simp [hne, hc]
+  rw [Num.val_eq, decVal_all_zero _ hint, fracVal_all_zero _ hfr]
+  split <;> grind
+
+theorem roundTo_zero (p : Nat) : Amount.roundTo 0 p = 0 := by
+  apply roundTo_id_aux 0 p 0
+  simp [Rat.zero_mul]
+
+theorem isZeroAmt_sound (hasComm : Bool) (cp : Nat) (q : Rat) (ap : Nat) (keep : Bool)
+    (h : isZeroAmt hasComm cp q ap keep = true) :
+    Amount.roundTo q (displayPrec hasComm cp ap keep) = 0 := by
+  unfold isZeroAmt at h
+  cases hasComm with
+  | false =>
+    simp only [Bool.false_eq_true, if_false, decide_eq_true_eq] at h
+    rw [h]; exact roundTo_zero _
+  | true =>
+    simp only [if_true] at h
+    by_cases hk : keep = true ∨ ap ≤ cp
+    · rw [if_pos hk] at h
+      have : q = 0 := by simpa using h
+      rw [this]; exact roundTo_zero _
+    · rw [if_neg hk] at h
+      have hkf : keep = false := by
+        cases keep with
+        | true => exact absurd (Or.inl rfl) hk
+        | false => rfl
+      have hdp : displayPrec true cp ap keep = cp := by simp [displayPrec, hkf]
+      rw [hdp]
+      by_cases hq : q = 0
+      · rw [hq]; exact roundTo_zero _
+      · rw [if_neg hq] at h
+        by_cases hgt : q.num > (q.den : Int)
+        · rw [if_pos hgt] at h; cases h
+        · rw [if_neg hgt] at h
+          rw [← fmtNum_val q cp none]
+          exact plain_test_sound _ (fmtNum_int_digits q cp none).2 (fmtNum_frac_digits q cp none) h
+
+theorem fracDigits_zero (p : Nat) : ∀ c ∈ fracDigits 0 p, c = '0' := by
+  induction p with
+  | zero => simp [fracDigits]
+  | succ p ih =>
+    intro c hc
+    simp only [fracDigits, Nat.zero_div, List.mem_append, List.mem_singleton] at hc
+    rcases hc with hc | hc
+    · exact ih c hc
+    · rw [hc]; rfl
+
+/-- a value above one never rounds to zero. -/
+theorem roundUnits_pos_of_gt_one (q : Rat) (p : Nat) (h : q.num > (q.den : Int)) :
+    0 < Amount.roundUnits q p := by
+  have hd : (0 : Int) < (q.den : Int) := by have := q.den_pos; omega
+  have hb := (roundDiv_bounds (q.num * (10 : Int) ^ p) q.den hd).2
+  rw [← Amount.roundUnits_eq] at hb
+  have hT : (1 : Int) ≤ (10 : Int) ^ p := Int.pow_pos (by decide)
+  have hn : q.num * 1 ≤ q.num * (10 : Int) ^ p := Int.mul_le_mul_of_nonneg_left hT (by omega)
+  generalize Amount.roundUnits q p = u at *
+  generalize q.num * (10 : Int) ^ p = n at *
+  rcases Int.lt_or_le 0 u with hu | hu
+  · exact hu
+  · have : u * (q.den : Int) ≤ 0 * (q.den : Int) := Int.mul_le_mul_of_nonneg_right hu (by omega)
+    omega
+
+theorem isZeroAmt_complete (cp : Nat) (q : Rat) (ap : Nat) (hlt : cp < ap)
+    (hr : Amount.roundTo q cp = 0) : isZeroAmt true cp q ap false = true := by
+  have hu : Amount.roundUnits q cp = 0 := by
+    have := roundTo_mul_pow q cp
+    rw [hr, Rat.zero_mul] at this
+    exact (Rat.intCast_eq_zero_iff.mp this.symm)
+  unfold isZeroAmt
+  have hk : ¬ (false = true ∨ ap ≤ cp) := by
+    intro h
+    rcases h with h | h
+    · cases h
+    · omega
+  simp only [if_true, if_neg hk]
+  by_cases hq : q = 0
+  · rw [if_pos hq]
+  · rw [if_neg hq]
+    by_cases hgt : q.num > (q.den : Int)
+    · have := roundUnits_pos_of_gt_one q cp hgt
+      omega
+    · rw [if_neg hgt]
+      apply List.all_eq_true.mpr
+      intro c hc
+      unfold fmtNum Num.plain at hc
+      simp only [hu, Int.natAbs_zero, Nat.zero_div, Nat.zero_mod] at hc
+      have hint : intDigits 0 = ['0'] := by rw [intDigits]; rfl
+      rw [hint] at hc
+      simp only [List.mem_append, List.mem_singleton] at hc
+      rcases hc with (hc | hc) | hc
+      · split at hc
+        · simp only [List.mem_singleton] at hc; rw [hc]; rfl
+        · simp at hc
+      · rw [hc]; rfl
+      · split at hc
+        · simp at hc
+        · simp only [List.mem_cons] at hc
+          rcases hc with hc | hc
+          · rw [hc]; rfl
+          · rw [fracDigits_zero cp c hc]; rfl
+
 end Ledger.AmountText
